@@ -5,7 +5,7 @@ from .util import call
 
 ID = 'C20'
 LEAN_MODULE = 'KernProofs.C20'
-THEOREMS = ['KM.C20.lines_agree_aux', 'KM.C20.C20_readers', 'KM.C20.C20_same_document', 'KM.C20.C20_domain_is_needed']
+THEOREMS = ['KM.C20.lines_agree_aux', 'KM.C20.C20_readers', 'KM.C20.C20_same_document', 'KM.C20.C20_domain_is_needed', 'KM.C20.C20_converter_options']
 FINGERPRINTS = ['importer.Importer', 'exporter.kern_to_ekern', 'exporter.ekern_to_krn', 'exporter.get_kern_from_ekern', 'generic.Generic', 'public']
 RULE = ('generated documents (quick 16 / thorough 120) written to real files in a temporary directory with LF and CRLF line ends, with and without a final '
         'newline, non-ASCII lyrics: load(file) vs loads(text) (whole tree and export), the model\'s two line readers on the same texts, dump vs dumps for '
